@@ -8,7 +8,7 @@ From TeosModel Require Import Base.
 
 Definition bytes := list N.
 
-Definition is_nil {A} (l : list A) : bool := match l with [] => true | _ => false end.
+Definition btc_is_nil {A} (l : list A) : bool := match l with [] => true | _ => false end.
 
 (* ---------- fixed-width little-endian integers (emit_u16/u32/u64, read_u16/u32/u64) ---------- *)
 Fixpoint le_bytes (n : nat) (v : N) : bytes :=
@@ -29,7 +29,7 @@ Definition i32_of_u32 (u : N) : Z :=
   if u <? 2147483648 then Z.of_N u else (Z.of_N u - 4294967296)%Z.
 
 (* ---------- decoder results ---------- *)
-Inductive derr :=
+Inductive btc_derr :=
 | EIo                                (* Error::Io (UnexpectedEof: the Cursor ran out of bytes) *)
 | ENonMinimalVarInt                  (* Error::NonMinimalVarInt *)
 | EUnsupportedSegwitFlag (x : N)     (* Error::UnsupportedSegwitFlag(x) *)
@@ -37,13 +37,13 @@ Inductive derr :=
 | ETrailing                          (* ParseFailed("data not consumed entirely when explicitly deserializing") *)
 | EOversized.                        (* Error::OversizedVectorAllocation (Witness decoding only) *)
 
-Inductive res (A : Type) :=
+Inductive dres (A : Type) :=
 | ROk (a : A) (rest : bytes)
-| RErr (e : derr).
+| RErr (e : btc_derr).
 Arguments ROk {A} a rest.
 Arguments RErr {A} e.
 
-Definition rbind {A B} (r : res A) (f : A -> bytes -> res B) : res B :=
+Definition btc_rbind {A B} (r : dres A) (f : A -> bytes -> dres B) : dres B :=
   match r with
   | ROk a rest => f a rest
   | RErr e => RErr e
@@ -51,13 +51,13 @@ Definition rbind {A B} (r : res A) (f : A -> bytes -> res B) : res B :=
 
 (* read_exact of n bytes.  n may be any u64 taken from the input: it is compared with the number
    of remaining bytes before being turned into a nat. *)
-Definition take (n : N) (inp : bytes) : res bytes :=
+Definition btc_take (n : N) (inp : bytes) : dres bytes :=
   if n <=? N.of_nat (length inp)
   then ROk (firstn (N.to_nat n) inp) (skipn (N.to_nat n) inp)
   else RErr EIo.
 
-Definition read_le (n : nat) (inp : bytes) : res N :=
-  rbind (take (N.of_nat n) inp) (fun bs rest => ROk (le_val bs) rest).
+Definition btc_read_le (n : nat) (inp : bytes) : dres N :=
+  btc_rbind (btc_take (N.of_nat n) inp) (fun bs rest => ROk (le_val bs) rest).
 
 (* ---------- VarInt (compact size) ---------- *)
 Definition csize_enc (n : N) : bytes :=
@@ -70,16 +70,16 @@ Definition csize_enc (n : N) : bytes :=
 Definition csize_len (n : N) : N :=
   if n <=? 252 then 1 else if n <=? 65535 then 3 else if n <=? 4294967295 then 5 else 9.
 
-Definition csize_dec (inp : bytes) : res N :=
+Definition csize_dec (inp : bytes) : dres N :=
   match inp with
   | [] => RErr EIo
   | b :: rest =>
     if b =? 255 then
-      rbind (read_le 8 rest) (fun x r => if x <? 4294967296 then RErr ENonMinimalVarInt else ROk x r)
+      btc_rbind (btc_read_le 8 rest) (fun x r => if x <? 4294967296 then RErr ENonMinimalVarInt else ROk x r)
     else if b =? 254 then
-      rbind (read_le 4 rest) (fun x r => if x <? 65536 then RErr ENonMinimalVarInt else ROk x r)
+      btc_rbind (btc_read_le 4 rest) (fun x r => if x <? 65536 then RErr ENonMinimalVarInt else ROk x r)
     else if b =? 253 then
-      rbind (read_le 2 rest) (fun x r => if x <? 253 then RErr ENonMinimalVarInt else ROk x r)
+      btc_rbind (btc_read_le 2 rest) (fun x r => if x <? 253 then RErr ENonMinimalVarInt else ROk x r)
     else ROk b rest
   end.
 
@@ -105,22 +105,22 @@ Record btx := mk_btx {
 }.
 
 (* ---------- encoding ---------- *)
-Definition enc_bytes (b : bytes) : bytes := csize_enc (N.of_nat (length b)) ++ b.
+Definition btc_enc_bytes (b : bytes) : bytes := csize_enc (N.of_nat (length b)) ++ b.
 
-Definition enc_vec {A} (f : A -> bytes) (l : list A) : bytes :=
+Definition btc_enc_vec {A} (f : A -> bytes) (l : list A) : bytes :=
   csize_enc (N.of_nat (length l)) ++ flat_map f l.
 
 Definition enc_txin (i : txin) : bytes :=
-  txi_txid i ++ le_bytes 4 (txi_vout i) ++ enc_bytes (txi_script i) ++ le_bytes 4 (txi_seq i).
+  txi_txid i ++ le_bytes 4 (txi_vout i) ++ btc_enc_bytes (txi_script i) ++ le_bytes 4 (txi_seq i).
 
 Definition enc_txout (o : txout) : bytes :=
-  le_bytes 8 (txo_value o) ++ enc_bytes (txo_script o).
+  le_bytes 8 (txo_value o) ++ btc_enc_bytes (txo_script o).
 
-Definition enc_witness (w : list bytes) : bytes := enc_vec enc_bytes w.
+Definition enc_witness (w : list bytes) : bytes := btc_enc_vec btc_enc_bytes w.
 
 (* Transaction::uses_segwit_serialization: any non-empty witness, or no inputs at all *)
 Definition uses_segwit (t : btx) : bool :=
-  existsb (fun i => negb (is_nil (txi_witness i))) (btx_in t) || is_nil (btx_in t).
+  existsb (fun i => negb (btc_is_nil (txi_witness i))) (btx_in t) || btc_is_nil (btx_in t).
 
 Definition SEGWIT_MARKER : N := 0.
 Definition SEGWIT_FLAG : N := 1.
@@ -128,105 +128,105 @@ Definition SEGWIT_FLAG : N := 1.
 Definition tx_encode (t : btx) : bytes :=
   le_bytes 4 (u32_of_i32 (btx_version t)) ++
   (if uses_segwit t
-   then [SEGWIT_MARKER; SEGWIT_FLAG] ++ enc_vec enc_txin (btx_in t) ++ enc_vec enc_txout (btx_out t) ++
+   then [SEGWIT_MARKER; SEGWIT_FLAG] ++ btc_enc_vec enc_txin (btx_in t) ++ btc_enc_vec enc_txout (btx_out t) ++
         flat_map (fun i => enc_witness (txi_witness i)) (btx_in t)
-   else enc_vec enc_txin (btx_in t) ++ enc_vec enc_txout (btx_out t)) ++
+   else btc_enc_vec enc_txin (btx_in t) ++ btc_enc_vec enc_txout (btx_out t)) ++
   le_bytes 4 (btx_lock t).
 
 (* ---------- decoding ---------- *)
 (* Vec<u8> / ScriptBuf: VarInt length then read_exact (in 128 KiB chunks; a length larger than the
    remaining input ends in Io(UnexpectedEof) whatever its size) *)
-Definition dec_bytes (inp : bytes) : res bytes :=
-  rbind (csize_dec inp) (fun n r => take n r).
+Definition btc_dec_bytes (inp : bytes) : dres bytes :=
+  btc_rbind (csize_dec inp) (fun n r => btc_take n r).
 
-Definition TXID_LEN : N := 32.
+Definition BTC_TXID_LEN : N := 32.
 
-Definition dec_txin (inp : bytes) : res txin :=
-  rbind (take TXID_LEN inp) (fun txid r =>
-  rbind (read_le 4 r) (fun vout r =>
-  rbind (dec_bytes r) (fun script r =>
-  rbind (read_le 4 r) (fun seq r =>
+Definition dec_txin (inp : bytes) : dres txin :=
+  btc_rbind (btc_take BTC_TXID_LEN inp) (fun txid r =>
+  btc_rbind (btc_read_le 4 r) (fun vout r =>
+  btc_rbind (btc_dec_bytes r) (fun script r =>
+  btc_rbind (btc_read_le 4 r) (fun seq r =>
   ROk {| txi_txid := txid; txi_vout := vout; txi_script := script; txi_seq := seq; txi_witness := [] |} r)))).
 
-Definition dec_txout (inp : bytes) : res txout :=
-  rbind (read_le 8 inp) (fun v r =>
-  rbind (dec_bytes r) (fun script r =>
+Definition dec_txout (inp : bytes) : dres txout :=
+  btc_rbind (btc_read_le 8 inp) (fun v r =>
+  btc_rbind (btc_dec_bytes r) (fun script r =>
   ROk {| txo_value := v; txo_script := script |} r)).
 
 (* `for _ in 0..len { ret.push(decode(r)?) }` with len any u64.  The recursion is on fuel; callers
    pass the number of remaining input bytes, which bounds the number of items that can be decoded
    (every item consumes at least one byte).  At fuel 0 the next item is attempted once more so that
    the error is the one the library reports (Io on an exhausted input). *)
-Fixpoint dec_items {A} (item : bytes -> res A) (fuel : nat) (n : N) (inp : bytes) : res (list A) :=
+Fixpoint btc_dec_items {A} (item : bytes -> dres A) (fuel : nat) (n : N) (inp : bytes) : dres (list A) :=
   if n =? 0 then ROk [] inp
   else match fuel with
        | O => match item inp with RErr e => RErr e | ROk _ _ => RErr EIo end
-       | S f => rbind (item inp) (fun a r =>
-                rbind (dec_items item f (n - 1) r) (fun l r' => ROk (a :: l) r'))
+       | S f => btc_rbind (item inp) (fun a r =>
+                btc_rbind (btc_dec_items item f (n - 1) r) (fun l r' => ROk (a :: l) r'))
        end.
 
-Definition dec_vec {A} (item : bytes -> res A) (inp : bytes) : res (list A) :=
-  rbind (csize_dec inp) (fun n r => dec_items item (length r) n r).
+Definition btc_dec_vec {A} (item : bytes -> dres A) (inp : bytes) : dres (list A) :=
+  btc_rbind (csize_dec inp) (fun n r => btc_dec_items item (length r) n r).
 
 (* Witness::consensus_decode: element count above MAX_VEC_SIZE is refused; so is a stack whose
    elements with their length prefixes occupy more than MAX_VEC_SIZE bytes
    (required_len > MAX_VEC_SIZE + witness_index_space, incl. the checked_add overflows) *)
 Definition MAX_VEC_SIZE : N := 4000000.
 
-Definition wit_step (rec : N -> bytes -> res (list bytes)) (acc : N) (inp : bytes) : res (list bytes) :=
-  rbind (csize_dec inp) (fun sz r =>
+Definition wit_step (rec : N -> bytes -> dres (list bytes)) (acc : N) (inp : bytes) : dres (list bytes) :=
+  btc_rbind (csize_dec inp) (fun sz r =>
     let acc' := acc + sz + csize_len sz in
     if MAX_VEC_SIZE <? acc' then RErr EOversized
-    else rbind (take sz r) (fun e r' =>
-         rbind (rec acc' r') (fun l r'' => ROk (e :: l) r''))).
+    else btc_rbind (btc_take sz r) (fun e r' =>
+         btc_rbind (rec acc' r') (fun l r'' => ROk (e :: l) r''))).
 
-Fixpoint dec_wit_items (fuel : nat) (n : N) (acc : N) (inp : bytes) : res (list bytes) :=
+Fixpoint dec_wit_items (fuel : nat) (n : N) (acc : N) (inp : bytes) : dres (list bytes) :=
   if n =? 0 then ROk [] inp
   else match fuel with
        | O => wit_step (fun _ _ => RErr EIo) acc inp
        | S f => wit_step (dec_wit_items f (n - 1)) acc inp
        end.
 
-Definition dec_witness (inp : bytes) : res (list bytes) :=
-  rbind (csize_dec inp) (fun n r =>
+Definition dec_witness (inp : bytes) : dres (list bytes) :=
+  btc_rbind (csize_dec inp) (fun n r =>
     if MAX_VEC_SIZE <? n then RErr EOversized
     else dec_wit_items (length r) n 0 r).
 
 (* `for txin in input.iter_mut() { txin.witness = decode(r)? }` *)
-Fixpoint dec_witnesses (ins : list txin) (inp : bytes) : res (list txin) :=
+Fixpoint dec_witnesses (ins : list txin) (inp : bytes) : dres (list txin) :=
   match ins with
   | [] => ROk [] inp
   | i :: rest =>
-    rbind (dec_witness inp) (fun w r =>
-    rbind (dec_witnesses rest r) (fun l r' =>
+    btc_rbind (dec_witness inp) (fun w r =>
+    btc_rbind (dec_witnesses rest r) (fun l r' =>
     ROk ({| txi_txid := txi_txid i; txi_vout := txi_vout i; txi_script := txi_script i;
             txi_seq := txi_seq i; txi_witness := w |} :: l) r'))
   end.
 
 (* Transaction::consensus_decode_from_finite_reader *)
-Definition parse_tx (inp : bytes) : res btx :=
-  rbind (read_le 4 inp) (fun v r =>
-  rbind (dec_vec dec_txin r) (fun ins r =>
+Definition parse_tx (inp : bytes) : dres btx :=
+  btc_rbind (btc_read_le 4 inp) (fun v r =>
+  btc_rbind (btc_dec_vec dec_txin r) (fun ins r =>
   match ins with
   | [] =>
-    rbind (read_le 1 r) (fun flag r =>
+    btc_rbind (btc_read_le 1 r) (fun flag r =>
     if flag =? 1 then
-      rbind (dec_vec dec_txin r) (fun ins r =>
-      rbind (dec_vec dec_txout r) (fun outs r =>
-      rbind (dec_witnesses ins r) (fun ins' r =>
-      if negb (is_nil ins') && forallb (fun i => is_nil (txi_witness i)) ins'
+      btc_rbind (btc_dec_vec dec_txin r) (fun ins r =>
+      btc_rbind (btc_dec_vec dec_txout r) (fun outs r =>
+      btc_rbind (dec_witnesses ins r) (fun ins' r =>
+      if negb (btc_is_nil ins') && forallb (fun i => btc_is_nil (txi_witness i)) ins'
       then RErr ENoWitnesses
-      else rbind (read_le 4 r) (fun lock r =>
+      else btc_rbind (btc_read_le 4 r) (fun lock r =>
            ROk {| btx_version := i32_of_u32 v; btx_in := ins'; btx_out := outs; btx_lock := lock |} r))))
     else RErr (EUnsupportedSegwitFlag flag))
   | _ :: _ =>
-    rbind (dec_vec dec_txout r) (fun outs r =>
-    rbind (read_le 4 r) (fun lock r =>
+    btc_rbind (btc_dec_vec dec_txout r) (fun outs r =>
+    btc_rbind (btc_read_le 4 r) (fun lock r =>
     ROk {| btx_version := i32_of_u32 v; btx_in := ins; btx_out := outs; btx_lock := lock |} r))
   end)).
 
 (* consensus::deserialize: deserialize_partial, then consumed == data.len() *)
-Definition tx_deserialize (inp : bytes) : btx + derr :=
+Definition tx_deserialize (inp : bytes) : btx + btc_derr :=
   match parse_tx inp with
   | ROk t [] => inl t
   | ROk _ (_ :: _) => inr ETrailing
@@ -237,29 +237,29 @@ Definition tx_decode (inp : bytes) : option btx :=
   match tx_deserialize inp with inl t => Some t | inr _ => None end.
 
 (* ---------- well-formed transactions: the values the Rust types can hold ---------- *)
-Definition byteb (b : N) : bool := b <? 256.
-Definition bytesb (l : bytes) : bool := forallb byteb l.
-Definition U64LIM : N := 18446744073709551616.
-Definition U32LIM : N := 4294967296.
-Definition lenb (n : nat) : bool := N.of_nat n <? U64LIM.
+Definition byte_wf (b : N) : bool := b <? 256.
+Definition bytes_wf (l : bytes) : bool := forallb byte_wf l.
+Definition BTC_U64LIM : N := 18446744073709551616.
+Definition BTC_U32LIM : N := 4294967296.
+Definition len_wf (n : nat) : bool := N.of_nat n <? BTC_U64LIM.
 
 (* serialised size of a witness stack without its element count *)
 Definition wit_size (w : list bytes) : N :=
   fold_right (fun e s => N.of_nat (length e) + csize_len (N.of_nat (length e)) + s) 0 w.
 
 Definition witness_wf (w : list bytes) : bool :=
-  forallb bytesb w && (N.of_nat (length w) <=? MAX_VEC_SIZE) && (wit_size w <=? MAX_VEC_SIZE).
+  forallb bytes_wf w && (N.of_nat (length w) <=? MAX_VEC_SIZE) && (wit_size w <=? MAX_VEC_SIZE).
 
 Definition txin_wf (i : txin) : bool :=
-  (N.of_nat (length (txi_txid i)) =? TXID_LEN) && bytesb (txi_txid i) &&
-  (txi_vout i <? U32LIM) && bytesb (txi_script i) && lenb (length (txi_script i)) &&
-  (txi_seq i <? U32LIM) && witness_wf (txi_witness i).
+  (N.of_nat (length (txi_txid i)) =? BTC_TXID_LEN) && bytes_wf (txi_txid i) &&
+  (txi_vout i <? BTC_U32LIM) && bytes_wf (txi_script i) && len_wf (length (txi_script i)) &&
+  (txi_seq i <? BTC_U32LIM) && witness_wf (txi_witness i).
 
 Definition txout_wf (o : txout) : bool :=
-  (txo_value o <? U64LIM) && bytesb (txo_script o) && lenb (length (txo_script o)).
+  (txo_value o <? BTC_U64LIM) && bytes_wf (txo_script o) && len_wf (length (txo_script o)).
 
 Definition tx_wf (t : btx) : bool :=
   (-2147483648 <=? btx_version t)%Z && (btx_version t <? 2147483648)%Z &&
-  forallb txin_wf (btx_in t) && lenb (length (btx_in t)) &&
-  forallb txout_wf (btx_out t) && lenb (length (btx_out t)) &&
-  (btx_lock t <? U32LIM).
+  forallb txin_wf (btx_in t) && len_wf (length (btx_in t)) &&
+  forallb txout_wf (btx_out t) && len_wf (length (btx_out t)) &&
+  (btx_lock t <? BTC_U32LIM).
